@@ -228,7 +228,7 @@ def partial(name, acts, maxn, adds, stack=0, und=0, fr=0, rst=0, last=False, **k
     return st
 
 
-ALLP = ['mod', 'badmod', 'vrem', 'ingest', 'prune', 'undo', 'fromroots']
+ALLP = ['mod', 'badmod', 'badvrem', 'vrem', 'ingest', 'prune', 'undo', 'fromroots']
 
 # --------------------------------------------------------------------------- C09
 PLAN['C09'] = {
